@@ -14,6 +14,52 @@ var verifSources = []string{
 	"# c\nA \"l\" {\n  k   = \"v${1}w\" // t\n\n  B {\n\tn = [1,  \"x\"]\n  }\n}\n",
 	"k = {a = 1, \"b\" = f(2, x...)} /* m */\nm = <<E\n t${a}\nE\nq=a ? b.c[0] : d.*.e\n",
 	"k = \"%{if a}x%{else}y%{endif}\"\nh = <<-E\n  a\n  E\nz = [for i, v in l: v if i]\n",
+	"m = <<E\n${s} t\nE\nn = <<-E\n  %{if t}y%{endif}\n    ${s}\n  E\nq = \"${s}\"\n",
+}
+
+// variables for evaluating the sources' attribute values before and after a rewrite
+func verifEvalCtx() *hcl.EvalContext {
+	return &hcl.EvalContext{Variables: map[string]cty.Value{
+		"s": cty.StringVal("S"),
+		"t": cty.True,
+		"a": cty.True,
+		"i": cty.True,
+		"l": cty.TupleVal([]cty.Value{cty.NumberIntVal(1), cty.NumberIntVal(2)}),
+		"b": cty.ObjectVal(map[string]cty.Value{"c": cty.TupleVal([]cty.Value{cty.NumberIntVal(7)})}),
+		"d": cty.TupleVal([]cty.Value{cty.ObjectVal(map[string]cty.Value{"e": cty.NumberIntVal(8)})}),
+	}}
+}
+
+// verifSameValues: every attribute of body a that evaluates evaluates to the same value in
+// body b (same attributes, same nested blocks in the same order).
+func verifSameValues(a, b *hclsyntax.Body, ctx *hcl.EvalContext) {
+	verif_assert(len(a.Attributes) == len(b.Attributes), "the formatted file has the same attributes")
+	verif_assert(len(a.Blocks) == len(b.Blocks), "the formatted file has the same blocks")
+	for name, attr := range a.Attributes {
+		other := b.Attributes[name]
+		verif_assert(other != nil, "the formatted file has the same attributes (by name)")
+		if other == nil {
+			continue
+		}
+		v1, d1 := attr.Expr.Value(ctx)
+		if d1.HasErrors() {
+			continue
+		}
+		v2, d2 := other.Expr.Value(ctx)
+		verif_assert(!d2.HasErrors(), "a value that evaluated before formatting evaluates after it")
+		if d2.HasErrors() {
+			continue
+		}
+		if v1.IsWhollyKnown() {
+			verif_assert(v2.RawEquals(v1), "the formatted file decodes to the same values")
+		}
+	}
+	if len(a.Blocks) == len(b.Blocks) {
+		for k := range a.Blocks {
+			verif_assert(a.Blocks[k].Type == b.Blocks[k].Type, "the formatted file has the same blocks, in order")
+			verifSameValues(a.Blocks[k].Body, b.Blocks[k].Body, ctx)
+		}
+	}
 }
 
 func verifNoBlanks(b []byte) []byte {
@@ -41,7 +87,7 @@ func verifSameText(a, b []byte, label string) {
 func verifRewriteCheck(src []byte) {
 	hclsyntax.VerifRuneSeg = true // column counting must be a function of the text (see the stub)
 	start := hcl.Pos{Byte: 0, Line: 1, Column: 1}
-	_, sdiags := hclsyntax.ParseConfig(src, "f", start)
+	sfile, sdiags := hclsyntax.ParseConfig(src, "f", start)
 	if sdiags.HasErrors() {
 		return // C20 speaks about syntactically valid files
 	}
@@ -69,8 +115,11 @@ func verifRewriteCheck(src []byte) {
 	verifSameText(verifNoBlanks(once), verifNoBlanks(src), "formatting changes nothing but spaces and tabs")
 	twice := Format(once)
 	verifSameText(twice, once, "formatting is idempotent")
-	_, fdiags := hclsyntax.ParseConfig(once, "f", start)
+	ffile, fdiags := hclsyntax.ParseConfig(once, "f", start)
 	verif_assert(!fdiags.HasErrors(), "the formatted file is still valid")
+	if !fdiags.HasErrors() {
+		verifSameValues(sfile.Body.(*hclsyntax.Body), ffile.Body.(*hclsyntax.Body), verifEvalCtx())
+	}
 }
 
 // H_c20_short: every byte string of length 0..L that is a valid file.
@@ -128,31 +177,57 @@ func verifNumAttr(body *hclsyntax.Body, name string, want int64, label string) {
 	}
 }
 
-// H_c20_edit: programmatic edits do what they say: one edit (set an existing or a new
-// attribute to an arbitrary string value, remove an existing or an unknown attribute, append
-// a block with an arbitrary label, remove a block) on a file with comments, attributes and a
-// block; the serialised result re-parses without error and shows that change and no other.
+// H_c20_edit: programmatic edits do what they say: a sequence of 1..2 edits out
+// of {set attribute a, c or a new attribute n to an arbitrary string, remove a, remove c (the
+// last item of the body), remove an unknown attribute, append a block with an arbitrary label,
+// remove the first block} on a file with comments, attributes and a block; the serialised
+// result re-parses without error and shows exactly those changes and no other.
 func H_c20_edit() {
 	hclsyntax.VerifRuneSeg = true
 	start := hcl.Pos{Byte: 0, Line: 1, Column: 1}
 	f, diags := ParseConfig([]byte(verifEditSrc), "f", start)
 	verif_assume(!diags.HasErrors())
 	body := f.Body()
-	op := nondet_choice("edit", 6)
-	s := verifText("text", nondet_choice("text-len", verif_bound("edit-text-maxlen", 2, 3)+1))
-	switch op {
-	case 0:
-		body.SetAttributeValue("a", cty.StringVal(s))
-	case 1:
-		body.SetAttributeValue("n", cty.StringVal(s))
-	case 2:
-		body.RemoveAttribute("a")
-	case 3:
-		body.RemoveAttribute("zz")
-	case 4:
-		body.AppendNewBlock("nb", []string{s})
-	case 5:
-		verif_assert(body.RemoveBlock(body.Blocks()[0]), "an existing block can be removed")
+	// the edits are chosen first (the first choice partitions the run for sharding)
+	var ops []int
+	ops = append(ops, nondet_choice("edit", 8))
+	more := nondet_choice("more-edits", verif_bound("edit-sequence-max", 2, 2))
+	for k := 0; k < more; k++ {
+		ops = append(ops, nondet_choice("edit", 8))
+	}
+	s := verifText("text", nondet_choice("text-len", verif_bound("edit-text-maxlen", 1, 2)+1))
+	// reference state per attribute: 0 absent, 1 original number, 2 the string s
+	names := []string{"a", "c", "n"}
+	state := []int{1, 1, 0}
+	origBlock := true // the block b "l" { x = 2 } is still there
+	newBlocks := 0    // blocks nb "<s>" appended
+	for _, op := range ops {
+		switch op {
+		case 0, 1, 2:
+			body.SetAttributeValue(names[op], cty.StringVal(s))
+			state[op] = 2
+		case 3:
+			body.RemoveAttribute("a")
+			state[0] = 0
+		case 4:
+			body.RemoveAttribute("c")
+			state[1] = 0
+		case 5:
+			body.RemoveAttribute("zz")
+		case 6:
+			body.AppendNewBlock("nb", []string{s})
+			newBlocks++
+		case 7:
+			bs := body.Blocks()
+			if len(bs) > 0 {
+				verif_assert(body.RemoveBlock(bs[0]), "an existing block can be removed")
+				if origBlock {
+					origBlock = false
+				} else {
+					newBlocks--
+				}
+			}
+		}
 	}
 	out := f.Bytes()
 	sf, sdiags := hclsyntax.ParseConfig(out, "f", start)
@@ -161,17 +236,37 @@ func H_c20_edit() {
 		return
 	}
 	nb := sf.Body.(*hclsyntax.Body)
-	wantAttrs, wantBlocks := 2, 1
-	// untouched items
-	verifNumAttr(nb, "c", 3, "an untouched attribute keeps its value")
-	if op != 0 {
-		if op != 2 {
-			verifNumAttr(nb, "a", 1, "an untouched attribute keeps its value")
+	wantAttrs := 0
+	for i, name := range names {
+		a := nb.Attributes[name]
+		switch state[i] {
+		case 0:
+			verif_assert(a == nil, "an attribute that was removed (or never set) is absent")
+		case 1:
+			wantAttrs++
+			verifNumAttr(nb, name, []int64{1, 3, 0}[i], "an untouched attribute keeps its value")
+		case 2:
+			wantAttrs++
+			verif_assert(a != nil, "the attribute that was set is present")
+			if a != nil {
+				v, d := a.Expr.Value(nil)
+				verif_assert(!d.HasErrors(), "the value that was set evaluates")
+				verif_assert(v.Type() == cty.String, "the value that was set is a string")
+				if v.Type() == cty.String {
+					verif_assert(v.AsString() == s, "the attribute has exactly the value that was set")
+				}
+			}
 		}
 	}
-	if op != 5 {
-		verif_assert(len(nb.Blocks) >= 1, "an untouched block stays")
-		if len(nb.Blocks) >= 1 {
+	verif_assert(len(nb.Attributes) == wantAttrs, "no other attribute appears or disappears")
+	wantBlocks := newBlocks
+	if origBlock {
+		wantBlocks++
+	}
+	verif_assert(len(nb.Blocks) == wantBlocks, "no other block appears or disappears")
+	if len(nb.Blocks) == wantBlocks {
+		k := 0
+		if origBlock {
 			b := nb.Blocks[0]
 			verif_assert(b.Type == "b", "an untouched block keeps its type")
 			verif_assert(len(b.Labels) == 1, "an untouched block keeps its labels")
@@ -179,47 +274,22 @@ func H_c20_edit() {
 				verif_assert(b.Labels[0] == "l", "an untouched block keeps its label")
 			}
 			verifNumAttr(b.Body, "x", 2, "an untouched nested attribute keeps its value")
+			k = 1
 		}
-	}
-	// the change
-	switch op {
-	case 0, 1:
-		name := "a"
-		if op == 1 {
-			name = "n"
-			wantAttrs = 3
-		}
-		a := nb.Attributes[name]
-		verif_assert(a != nil, "the attribute that was set is present")
-		if a != nil {
-			v, d := a.Expr.Value(nil)
-			verif_assert(!d.HasErrors(), "the value that was set evaluates")
-			verif_assert(v.Type() == cty.String, "the value that was set is a string")
-			if v.Type() == cty.String {
-				verif_assert(v.AsString() == s, "the attribute has exactly the value that was set")
-			}
-		}
-	case 2:
-		wantAttrs = 1
-		verif_assert(nb.Attributes["a"] == nil, "a removed attribute is gone")
-	case 4:
-		wantBlocks = 2
-		if len(nb.Blocks) == 2 {
-			b := nb.Blocks[1]
-			verif_assert(b.Type == "nb", "the appended block has its type")
-			verif_assert(len(b.Labels) == 1, "the appended block has one label")
+		for ; k < len(nb.Blocks); k++ {
+			b := nb.Blocks[k]
+			verif_assert(b.Type == "nb", "an appended block has its type")
+			verif_assert(len(b.Labels) == 1, "an appended block has one label")
 			if len(b.Labels) == 1 {
-				verif_assert(b.Labels[0] == s, "the appended block has exactly the label given")
+				verif_assert(b.Labels[0] == s, "an appended block has exactly the label given")
 			}
 		}
-	case 5:
-		wantBlocks = 0
 	}
-	verif_assert(len(nb.Attributes) == wantAttrs, "no other attribute appears or disappears")
-	verif_assert(len(nb.Blocks) == wantBlocks, "no other block appears or disappears")
 	// comments of untouched items are preserved
 	verif_assert(verifContains(out, "# c\n"), "a free-standing comment is preserved")
-	verif_assert(verifContains(out, "// t\n"), "the line comment of an untouched attribute is preserved")
+	if state[1] == 1 {
+		verif_assert(verifContains(out, "// t\n"), "the line comment of an untouched attribute is preserved")
+	}
 	verif_witness()
 }
 
